@@ -323,6 +323,46 @@ pub fn c02_node_case(ctx: &Ctx, c: &C02Node) -> Vec<Viol> {
         }
         payloads.push((from, to, frame));
     }
+    // frames that take the flood path (broadcast destination): every connected peer of the sender - over sealed and
+    // unencrypted connections alike - must write exactly these bytes
+    for from in 0..3usize {
+        let peers_of: Vec<usize> = connected.iter().filter_map(|(i, j, _)| if *i == from { Some(*j) } else if *j == from { Some(*i) } else { None }).collect();
+        if peers_of.is_empty() {
+            continue;
+        }
+        let len = 30 + (x as usize >> 9) % 900;
+        let body: Vec<u8> = (0..len)
+            .map(|_| {
+                x ^= x << 13;
+                x ^= x >> 7;
+                x ^= x << 17;
+                (x >> 24) as u8
+            })
+            .collect();
+        let src_mac = [0xc2, [0xa1, 0x4d, 0xf3][from], [0xb7, 0xe9, 0x08][from], [0x5e, 0x17, 0xac][from], [0x93, 0x6b, 0xd5][from], 0x02];
+        let frame = eth_frame([0xff; 6], src_mac, None, &body);
+        for n in 0..3 {
+            sim.take_iface(n);
+        }
+        sim.put_payload(from, frame.clone());
+        sim.settle();
+        for to in 0..3usize {
+            let got = sim.take_iface(to);
+            let want: Vec<Vec<u8>> = if peers_of.contains(&to) { vec![frame.clone()] } else { vec![] };
+            if got != want {
+                out.push(Viol::new(
+                    "flooded-frame-not-delivered-byte-identical",
+                    format!(
+                        "broadcast frame of {} bytes read at node {} (peers {:?}, cipher lists {:?}): node {} wrote {} frames (first identical: {})",
+                        frame.len(), from, peers_of, c.algos, to, got.len(), got.first() == Some(&frame)
+                    ),
+                    cj(),
+                ));
+            }
+        }
+        ctx.class("c02-node:flooded-frame");
+        payloads.push((from, 99, frame));
+    }
     sim.run(2);
     // wire search: no 8-byte window of a payload on encrypted connections
     for d in &sim.wire_log[handshake_end..] {
